@@ -267,6 +267,54 @@ func touchChain(r *run.Rng) poly {
 	return p
 }
 
+// inscribed: a member whose vertices all lie on the boundary of another member's shell (so the two
+// envelopes can coincide and the boundaries meet in points, or overlap along an edge), either nested in
+// that member (invalid) or sitting in a hole of that shape in a bigger member (valid unless an edge is
+// shared).
+func inscribed(r *run.Rng) []poly {
+	side := 8
+	var outer ring
+	if r.Bool() {
+		a, b := r.Range(2, side), r.Range(2, side)
+		outer = ring{{0, 0}, {a, 0}, {a, b}, {0, b}, {0, 0}}
+	} else {
+		outer = convexRing(r, side, r.Range(3, 6), nil)
+	}
+	// lattice points on the boundary of outer
+	var bd []ip
+	for i := 0; i+1 < len(outer); i++ {
+		a, b := outer[i], outer[i+1]
+		dx, dy := b.x-a.x, b.y-a.y
+		g := gcd(abs(dx), abs(dy))
+		for k := 0; k < g; k++ {
+			bd = append(bd, ip{a.x + dx/g*k, a.y + dy/g*k})
+		}
+	}
+	n := r.Range(3, 5)
+	var pick []ip
+	for i := 0; i < n; i++ {
+		pick = append(pick, bd[r.Intn(len(bd))])
+	}
+	h := hull(pick)
+	if len(h) < 3 {
+		return []poly{{outer}}
+	}
+	inner := append(ring(h), h[0])
+	inner = rot(inner, r.Intn(len(inner)-1), r.Bool())
+	outer = rot(outer, r.Intn(len(outer)-1), r.Bool())
+	var ps []poly
+	if r.Bool() {
+		ps = []poly{{outer}, {inner}}
+	} else {
+		big := ring{{-1, -1}, {side + 1, -1}, {side + 1, side + 1}, {-1, side + 1}, {-1, -1}}
+		ps = []poly{{big, outer}, {inner}}
+	}
+	if r.Bool() {
+		ps[0], ps[1] = ps[1], ps[0]
+	}
+	return ps
+}
+
 // ---------- monitors ----------
 
 type candidate struct {
@@ -832,6 +880,11 @@ func runAll(c *run.Ctx) {
 	for i := 0; i < c.N(8000, 80000); i++ {
 		c.Case("nested-holes", i, func(k *run.K) {
 			judge(k, candidate{kind: "Polygon", polys: []poly{nestedPair(k.Rng)}}, c.N(8, 16), true)
+		})
+	}
+	for i := 0; i < c.N(4000, 40000); i++ {
+		c.Case("inscribed", i, func(k *run.K) {
+			judge(k, candidate{kind: "MultiPolygon", polys: inscribed(k.Rng)}, c.N(8, 16), false)
 		})
 	}
 	for i := 0; i < c.N(3000, 30000); i++ {
